@@ -511,3 +511,112 @@ func checkOptionalScratch(c *core.Ctx) {
 		})
 	})
 }
+
+// C20.R14 — restart protocol of the quasi-Newton loop. The loop gives up ("line search failed") when a step fails while
+// a flag says that the inverse Hessian is still the initial one. Every statement that re-initialises the loop's matrix
+// from the initial matrix (a parameter of the routine) therefore has to set that flag in the same block; otherwise two
+// failures in a row restart for ever instead of ending the run (the default iteration limit is astronomically large).
+func checkRestartProtocol(c *core.Ctx) {
+	c.Rule("C20.R14", "optimizer loops: a block that re-initialises the iteration matrix from the initial matrix also sets the flag that guards the give-up exit", 2)
+	for _, p := range c.LibPkgs() {
+		if !strings.Contains(p.PkgPath, "/algorithm/") {
+			continue
+		}
+		info := p.TypesInfo
+		pkg := p
+		core.EachFunc(p, func(_ *ast.File, fd *ast.FuncDecl) {
+			if fd.Body == nil {
+				return
+			}
+			params := map[types.Object]bool{}
+			for _, f := range fd.Type.Params.List {
+				for _, n := range f.Names {
+					params[info.Defs[n]] = true
+				}
+			}
+			// give-up flags: local booleans tested (positively) by an if inside a loop whose body returns a non-nil error
+			flags := map[types.Object]bool{}
+			var loops []*ast.ForStmt
+			ast.Inspect(fd.Body, func(n ast.Node) bool {
+				if l, ok := n.(*ast.ForStmt); ok {
+					loops = append(loops, l)
+				}
+				return true
+			})
+			for _, l := range loops {
+				ast.Inspect(l.Body, func(n ast.Node) bool {
+					is, ok := n.(*ast.IfStmt)
+					if !ok {
+						return true
+					}
+					id, ok := ast.Unparen(is.Cond).(*ast.Ident)
+					if !ok {
+						return true
+					}
+					v, ok := info.Uses[id].(*types.Var)
+					if !ok || params[v] {
+						return true
+					}
+					if b, ok := v.Type().Underlying().(*types.Basic); !ok || b.Kind() != types.Bool {
+						return true
+					}
+					if len(is.Body.List) > 0 {
+						if r, ok := is.Body.List[len(is.Body.List)-1].(*ast.ReturnStmt); ok && len(r.Results) > 0 {
+							if lastId, isId := ast.Unparen(r.Results[len(r.Results)-1]).(*ast.Ident); !isId || lastId.Name != "nil" {
+								flags[v] = true
+							}
+						}
+					}
+					return true
+				})
+			}
+			if len(flags) == 0 {
+				return
+			}
+			cons := c.FuncName(pkg, fd)
+			for _, l := range loops {
+				ast.Inspect(l.Body, func(n ast.Node) bool {
+					blk, ok := n.(*ast.BlockStmt)
+					if !ok {
+						return true
+					}
+					for _, st := range blk.List {
+						es, ok := st.(*ast.ExprStmt)
+						if !ok {
+							continue
+						}
+						ce, ok := es.X.(*ast.CallExpr)
+						if !ok || len(ce.Args) != 1 {
+							continue
+						}
+						sel, ok := ast.Unparen(ce.Fun).(*ast.SelectorExpr)
+						if !ok || sel.Sel.Name != "Set" {
+							continue
+						}
+						arg, ok := ast.Unparen(ce.Args[0]).(*ast.Ident)
+						if !ok || !params[info.Uses[arg]] {
+							continue
+						}
+						if tv, ok := info.Types[ce.Args[0]]; !ok || !strings.Contains(tv.Type.String(), "Matrix") {
+							continue
+						}
+						// the same block sets a give-up flag to true
+						set := false
+						for _, s2 := range blk.List {
+							if as, ok := s2.(*ast.AssignStmt); ok && len(as.Lhs) == 1 && len(as.Rhs) == 1 {
+								if li, ok := ast.Unparen(as.Lhs[0]).(*ast.Ident); ok && flags[info.Uses[li]] {
+									if ri, ok := ast.Unparen(as.Rhs[0]).(*ast.Ident); ok && ri.Name == "true" {
+										set = true
+									}
+								}
+							}
+						}
+						c.Check(set, "C20.R14", cons, "restart "+types.ExprString(ce), ce.Pos(),
+							"the iteration matrix is re-initialised from "+arg.Name+" without setting the flag that guards the give-up exit: repeated failures restart for ever")
+					}
+					return true
+				})
+			}
+		})
+	}
+}
